@@ -120,7 +120,7 @@ def _layout(rng, p, nfd, lat, names):
     return fshape, fdims
 
 
-def build(case, sample_dim="time"):
+def build(case, sample_dim="time", lag=False):
     """Labelled inputs.  Returns dict with M (list of raw matrices), da (DataArrays), fdims, w_cos, w_user, W."""
     import xarray as xr
 
@@ -133,7 +133,7 @@ def build(case, sample_dim="time"):
         fshape, fdims = _layout(rng, p, f.get("nfd", 1), coslat or rng.random() < 0.2, names)
         # every fourth case: the second field keeps time stamps of its own (a lagged pairing) that overlap the first
         # field's only partly -- samples are paired by position, never by label
-        sc = np.arange(M.shape[0]) + M.shape[0] // 3 if (i == 1 and int(case.get("dseed", 0)) % 4 == 1) else None
+        sc = np.arange(M.shape[0]) + M.shape[0] // 3 if (lag and i == 1 and int(case.get("dseed", 0)) % 4 == 1) else None
         da = xu.make_da(M, fshape, fdims, sample_dim=sample_dim, sample_coords=sc, name=f"field{i + 1}")
         w_cos = None
         if coslat:
